@@ -3,6 +3,7 @@ import RbV.Ref.Smem
 import RbV.Model.FMDExt
 import RbV.Model.Smems
 import RbV.Model.LFSortedCheck
+import RbV.Ref.SA
 /-! Driver for property C06: FMD-index.
 
 `c06 smems <s1>/<s2>/… k:<rate> l:<l> <pattern> => <sa> <smems(p,0,l)>/…/<smems(p,|p|-1,l)> <all_smems(p,l)>`
@@ -133,6 +134,9 @@ def smemsVerdict (seqs : List (List Nat)) (k l : Nat) (p : List Nat) (out : Stri
             ++ tagIf (seqs.length ≥ 2) "multi" ++ tagIf (k > 64) "k>64" ++ tagIf (k ≤ 64) "k<=64"
             ++ tagIf (perI.any (fun r => r.any (fun o => o.fhi - o.flo ≥ 2))) "multi-occ"
             ++ (if sweepAgrees T sa p l perI all then " smems-model=impl" else " drift-smems")
+            -- the decidable hypotheses of `smems_bi_model_correct` / `…_of_checkSA` on this case
+            ++ (if LF.sortedAllB T sa then " lf-sorted" else " not-lf-sorted")
+            ++ (if checkSA T sa then " c03-accepts-sa" else " c03-rejects-sa")
     | _, _, _ => "bad-op output"
   | _ => "bad-op output-arity"
 
